@@ -30,6 +30,10 @@ void ntt_INTT(void *o, uint64_t *dst, uint64_t *src, uint64_t size, uint64_t nco
 {
     static_cast<NTT_Goldilocks *>(o)->INTT(E(dst), E(src), size, ncols, E(buffer), nphase, nblock);
 }
+void ntt_NTT_inverse(void *o, uint64_t *dst, uint64_t *src, uint64_t size, uint64_t ncols, uint64_t *buffer, uint64_t nphase, uint64_t nblock)
+{
+    static_cast<NTT_Goldilocks *>(o)->NTT(E(dst), E(src), size, ncols, E(buffer), nphase, nblock, true);
+}
 void ntt_extendPol(void *o, uint64_t *output, uint64_t *input, uint64_t N_Extended, uint64_t N, uint64_t ncols, uint64_t *buffer, uint64_t nphase, uint64_t nblock)
 {
     static_cast<NTT_Goldilocks *>(o)->extendPol(E(output), E(input), N_Extended, N, ncols, E(buffer), nphase, nblock);
